@@ -90,7 +90,9 @@ def run(tier, seed, replay=None):
         states += r.generated
         trans += r.generated
         cdir = dict(c, Cancel="FALSE", NoLim="FALSE")
-        for k in range(1, 7):
+        # directed targets (TLC searches the model for a behaviour reaching a named situation) only on the small
+        # configurations: with 4 goroutines the breadth-first search runs into hundreds of millions of states
+        for k in (range(1, 7) if c["NG"] <= 3 and c["MaxCalls"] <= 3 else []):
             tcfg = write_cfg(os.path.join(sc, "tgt%d_%d.cfg" % (i, k)), cdir,
                              "SPECIFICATION SSpec\nINVARIANT Target%d\nCHECK_DEADLOCK FALSE\n" % k)
             r = vlib.tlc("Limiter_Sim", tcfg, workers=4, timeout=600)
